@@ -114,6 +114,67 @@ def construction_facts(facts, fn, pos_var_names):
     return out
 
 
+def derived_state(facts, res, R="C13.5.derived-state", cls="TbfTree", structural=("cellBlocks", "particleGroups")):
+    """Anything the tree remembers ABOUT its groups outside the groups themselves (a lazily built table of particle slots, a
+    directory, a hint) is derived state: every member function that clears / refills the group containers - rebuild() - must
+    reset it, otherwise the next reader sees the layout of the tree before the rebuild.  Derived members are found from the
+    code: a member other than the group containers that some method (not the constructor) writes while it reads the groups."""
+    import c16
+    fields = {f["name"]: f for c in facts.classes if c["name"] == cls for f in c.get("fields", [])}
+    methods = [m for m in facts.methods_of(cls) if tbf.body(m) is not None]
+
+    def writes_to(m, lk=None):
+        out = {}
+        lk = lk or c16._Look(facts, m)
+        for x in walk(tbf.body(m)):
+            nm = None
+            if x.get("k") in ("CallExpr", "CXXMemberCallExpr") and tbf.callee_name(x) in c16.MUTATORS | {"resize", "assign", "clear", "reserve"} and tbf.call_base(x) is not None:
+                c = lk.container(tbf.call_base(x))
+                nm = c.split("[")[0] if c else None
+            if x.get("k") in ("BinaryOperator", "CompoundAssignOperator", "CXXOperatorCallExpr") and x.get("op", "").endswith("=") and x.get("op") not in ("==", "!=", "<=", ">="):
+                l = kids(x)[0] if x.get("k") != "CXXOperatorCallExpr" else kids(x)[1]
+                c = lk.container(l)
+                if c is None:
+                    l0 = strip(l)
+                    if l0.get("k") in ("MemberExpr", "CXXDependentScopeMemberExpr") and l0.get("name") in fields and (not kids(l0) or strip(kids(l0)[0]).get("k") == "CXXThisExpr"):
+                        c = l0["name"]
+                nm = c.split("[")[0] if c else nm
+            if nm in fields:
+                out.setdefault(nm, []).append(x)
+        return out
+
+    def reads_groups(m):
+        for x in walk(tbf.body(m)):
+            if x.get("k") in ("MemberExpr", "CXXDependentScopeMemberExpr") and x.get("name") in structural:
+                return True
+            if x.get("k") in ("CallExpr", "CXXMemberCallExpr") and (tbf.callee_name(x) or "").startswith(("applyToAll", "getNbParticleGroups", "getNbCellGroups", "getCellGroups", "getParticleGroups", "getLeafGroups")):
+                return True
+        return False
+    derived = {}
+    mutators = []
+    for m in methods:
+        w = writes_to(m)
+        if any(k in structural for k in w) and m["kind"] not in ("CXXConstructor", "CXXDestructor"):
+            mutators.append((m, w))
+        if m["kind"] in ("CXXConstructor", "CXXDestructor"):
+            continue
+        for fname, nodes in w.items():
+            if fname in structural:
+                continue
+            if reads_groups(m) and not any(k in structural for k in w):
+                derived.setdefault(fname, (m, nodes[0]))
+    res.instance(R, "%s derived members" % cls, "src/core", "members written outside construction while the groups are read: %s; functions that refill the groups: %s" % (sorted(derived) or "none", [m["name"] for m, _w in mutators]))
+    if not mutators:
+        raise AnalysisBroken("%s: no member function refilling the group containers found (rebuild confirmed by reading)" % cls)
+    for fname, (m0, node) in sorted(derived.items()):
+        for g, w in mutators:
+            if fname not in w:
+                res.violation(R, tbf.rel(facts.path_of(g)), g["qname"], "stale:%s:%s" % (fname, g["name"]), g["l"][1],
+                              "%s() refills the group containers but does not reset '%s', which %s() fills from the groups (%s) and keeps: after a rebuild '%s' still describes the layout "
+                              "before it, and whatever reads it returns the values of other particles / cells" % (g["name"], fname, m0["name"], facts.loc(node), fname))
+    return len(derived)
+
+
 def run(res, tier):
     facts = tbf.scan("core")
     res.units.append("umbrella TU 'core': TbfTree constructor, TbfTree::rebuild, TbfTreeTsm::rebuild")
@@ -187,6 +248,8 @@ def run(res, tier):
         res.instance("C13.4.reset", what, facts.loc(rebuild), "present: %s" % (what in done))
         if what not in done:
             res.violation("C13.4.reset", tbf.rel(facts.path_of(rebuild)), "TbfTree::rebuild", what, rebuild["l"][1], "rebuild does not start from empty containers (%s missing): old expansions would survive" % what)
+    res.rule("C13.5 every member the tree fills from its groups outside construction (caches, tables) is reset by rebuild()")
+    derived_state(facts, res)
     # tsm forwards to both trees
     t = facts.fn("TbfTreeTsm::rebuild")
     tt = facts.ntext(tbf.body(t))
